@@ -42,9 +42,13 @@ Verdict(r) ==
         n == Len(r.ev)
     IN
     IF fr.at # 0 THEN Fail(fr.clause, fr.at)
-    ELSE IF r.out.exc \notin {"none", "DALISequenceError", "ValueError"} THEN Fail("unrelated-exception:" \o r.out.exc, n)
+    ELSE IF r.seq # "abandon" /\ r.out.exc \notin {"none", "DALISequenceError", "ValueError"} THEN Fail("unrelated-exception:" \o r.out.exc, n)
     ELSE
-    CASE r.seq = "input" ->
+    CASE r.seq = "abandon" ->
+           \* the caller gave the sequence up part-way (closed it, or its task was cancelled): the sequence ends there --
+           \* no further command, and no exception of its own in place of the caller's
+           IF r.out.exc # "none" THEN Fail("abandoning-the-sequence:" \o r.out.exc, n) ELSE Pass
+      [] r.seq = "input" ->
            LET x == b0.dev[r.target[1]].inst[r.target[2] + 1] IN
            IF fr.hadfault THEN (IF FaultOutcomeOK(r) THEN Pass ELSE Fail("fault-gave-a-value", n))
            ELSE IF r.out.exc # "none" THEN Fail("raised:" \o r.out.exc, n)
